@@ -392,7 +392,8 @@ def handle (j : Json) : Json :=
                 match splitKeys names inc, splitKeys names (gbArgs g' m').2 with
                 | some I, some E =>
                   let d := inc.contains ""
-                  let ctxs := items.map (fun v => v.context w)
+                  -- the specification-side forms of the key are evaluated on the first 48 contexts of a case
+                  let ctxs := (items.map (fun v => v.context w)).take 48
                   let keyC := fun (c : Slots) => keepL (selC I E d) 0 c
                   let okItems := items.filter (fun v => !hasObjL (groupKey w t v))
                   let head := ctxs.take 10
